@@ -109,3 +109,12 @@ Theorem C15_gen_digestinfo :
   Gen.Hsm.ec_oid_table = [([6;8;42;134;72;206;61;3;1;7], 256); ([6;5;43;129;4;0;34], 384)].
 Proof. exact gen_digestinfo. Qed.
 Print Assumptions C15_gen_digestinfo.
+
+(* tie of C15_never_sign_symmetric to the source: KeyType has exactly the members RSA, EC, AES, DES3 and the match in sign_using_p11 exactly the arms
+   "RSA | EC -> go on" and "AES | DES3 -> raise", followed by _format_data_for_signing and key.sign *)
+Theorem C15_gen_key_types :
+  Gen.Hsm.keytype_members = [("RSA"%string, "_p11.CKK_RSA"%string); ("EC"%string, "_p11.CKK_EC"%string); ("AES"%string, "_p11.CKK_AES"%string); ("DES3"%string, "_p11.CKK_DES3"%string)] /\
+  Gen.Hsm.sign_keytype_arms = [("KeyType.RSA | KeyType.EC"%string, "pass"%string); ("KeyType.AES | KeyType.DES3"%string, "raise"%string)] /\
+  Gen.Hsm.sign_using_p11_steps = ["_sign_data = _format_data_for_signing"%string; "return key.sign"%string].
+Proof. exact gen_key_types. Qed.
+Print Assumptions C15_gen_key_types.
